@@ -46,7 +46,7 @@ def run(case, max_steps=150000):
             calls = spec['calls'] if isinstance(spec, dict) else spec
             then = spec.get('then') if isinstance(spec, dict) else None
 
-            async def main(calls=calls):
+            async def main(calls=calls, li=li):
                 loop = aio.get_running_loop()
                 t0 = loop.time()
                 tasks = []
@@ -64,6 +64,21 @@ def run(case, max_steps=150000):
                     finally:
                         if not sim.aborted:
                             rec['done'] = sim.now
+                    if c.get('nested'):
+                        # like asyncio.to_thread(asyncio.run, inner()): the task hands work to another thread, which
+                        # inherits a copy of this task's context and runs its own event loop that uses the function too
+                        import contextvars
+                        ctx = contextvars.copy_context()
+                        box = {}
+
+                        def inner_thread():
+                            try:
+                                ctx.run(lambda: aio.run(main(c['nested'], 100 + li)))
+                            finally:
+                                box['done'] = True
+                        sim.spawn(inner_thread, name='P%dL%d-inner' % (p, li))
+                        while not box.get('done'):
+                            await aio.sleep(1 / 64)
                 for c in sorted(calls, key=lambda c: c['at']):
                     d = t0 + c['at'] - loop.time()
                     if d > 0:
@@ -115,7 +130,8 @@ def run(case, max_steps=150000):
             return thread
 
         def _calls(lp):
-            return lp if isinstance(lp, list) else lp['calls'] + (lp.get('then') or [])
+            cs = lp if isinstance(lp, list) else lp['calls'] + (lp.get('then') or [])
+            return cs + [n for c in cs for n in (c.get('nested') or [])]
         hz = 60 + 10 * sum(c['at'] + cfg['bt'] + case['bdur'] for ph in case['phases'] for lp in ph for c in _calls(lp))
 
         def watchdog():
